@@ -26,7 +26,9 @@ class SPEC:
             "multi-byte UTF-8 strings, elements the schema does not know, partial element sets, duplicated elements (last one wins), "
             "zero-record data messages, records without elements, template messages with records. Non-trivial = contains a data "
             "message with >= 2 records; distinct by hash of the op. A dedicated small group carries strings that are not valid "
-            "UTF-8 (known finding D14); a small out-of-domain group carries ill-typed elements (the convertor panics).")
+            "UTF-8 (known finding D14); a small out-of-domain group carries ill-typed elements (the convertor panics). The recording "
+            "producer reports a broker failure on Errors() for every third message it was handed (the reports stay pending: buffered "
+            "channel): what the library publishes is what it puts on Input(), pending error reports must not make it skip later records.")
     assumptions = [
         "proto.Marshal / proto.Unmarshal of the two shipped message types are modelled (populated fields in field-number order; "
         "invalid UTF-8 in a string field is an error) and tied by byte equality of every payload on every run, not verified",
@@ -342,7 +344,10 @@ def gen_batches(rng, tier):
                     # records whose flow message is ALL proto3 defaults (zero header fields, no address, every value zero or
                     # empty, no IP element): the payload is the 4-byte length prefix alone and must still be published and read back
                     msg_token("D", 0, 0, 0, b"", [], [[], []]),
-                    msg_token("D", 0, 0, 0, b"", [ie for ie in ies if ie.ty not in (18, 19)], [zero([ie for ie in ies if ie.ty not in (18, 19)])] * 2)]
+                    msg_token("D", 0, 0, 0, b"", [ie for ie in ies if ie.ty not in (18, 19)], [zero([ie for ie in ies if ie.ty not in (18, 19)])] * 2),
+                    # ... and ordinary records AFTER them: what was queued for the empty ones must not change any more
+                    msg_token("D", 7, 8, 9, b"10.0.0.1", ies, [maxv(ies), zero(ies)]),
+                    msg_token("D", 0, 0, 0, b"", [], [[]]), msg_token("D", 1, 1, 1, b"::1", ies, [maxv(ies)])]
             cases.append(Case([" ".join(["kafka", s, "0", G.hexs(b"AntreaTopic")] + toks)], "corner", True, True))
         cases.append(Case(["kafka %s 0 %s" % (s, G.hexs(b"t"))], "corner", False, True))          # the channel is closed at once
     # every IPv6 text shape, one record each, in order
